@@ -12,6 +12,18 @@ CHECKS = {
  "C04": ("fault_enumeration", "deviation-bounded fault enumeration at every RHS call index, executions in watched child processes",
          "For every base configuration (method x problem incl. finite-time blow-up, stiff decay, discontinuities x direction x max_steps x min_step) every RHS call index of the nominal run is a decision point whose answer is replaced by NaN/+inf/-inf/1e300 once or persistently; all executions with <= d deviations (d=1 quick, 2 thorough) run to completion under a call budget and a wall-clock watchdog; the C03 prefix monitor and the finiteness clause are evaluated on each.",
          "a run exceeding 10^6 RHS calls or stalling 20 s is a verdict (no return); RK4 exempt from finiteness as the property says", "DESIGN.md §3 C04", "E2"),
+ "C05": ("model_checking", "two-pass exhaustive placement enumeration of requested times relative to the accepted-step grid, against a reference model of t_eval",
+         "Pass 1 learns the accepted grid of the real run; pass 2 runs every non-decreasing tuple (length <=2 quick, <=3 thorough) of requested times over a placement alphabet anchored on step boundaries (exact, ±1e-13, ±0.9e-12, ±1.1e-12, ±1e-9, interior) for every method x direction x problem x stop cause (none, events, terminal event, step budget), with dense_output off and on; a reference model decides which times must be reported and with which values.",
+         "the plain run's grid is the re-run's grid (C12, re-asserted by bitwise comparison of values with the plain interpolant); requested times within 1.2e-12 of the stopping point are not judged", "DESIGN.md §3 C05", "E1"),
+ "C08": ("model_checking", "two-pass exhaustive placement enumeration of event roots relative to the accepted-step grid with a per-event oracle",
+         "Every event configuration of the alphabet (functions of t and y, scales 1 and 1e-6, three direction filters, roots at and next to step boundaries, several functions firing in one step in both orders and coincident) is run for every method x direction x problem x tolerance; each reported event is checked for bracket, y_e = sol(t_e), |g| at root-finder accuracy, direction, order and shapes.",
+         "Lipschitz bounds of the event alphabet are computed from the run's own samples; direction is judged at the bracketing accepted endpoints", "DESIGN.md §3 C08/C09", "E1"),
+ "C09": ("model_checking", "same exhaustive event lattice as C08 observed at consecutive accepted endpoints (sign pattern <=> events)",
+         "For every run of the lattice the harness evaluates each event function at all accepted endpoints: strict opposite signs in the configured direction <=> exactly one event in that step, equal strict signs => none; ±(t-c) must give exactly one event within 2e-11 of c.",
+         "exact zeros at endpoints are excluded from the verdict as the property allows; events at a grid point are attributed to the adjacent step that expects one", "DESIGN.md §3 C08/C09", "E1"),
+ "C10": ("model_checking", "exhaustive differential enumeration: each event configuration with and without the terminal flag on each function, counts 1..3, t_eval and dense on/off",
+         "The run with a terminal flag must stop exactly at the count-th event of the plain run: status, final sample = event point bitwise, nothing later, earlier events kept, everything before the stop bit-identical to the plain run, sol_span covering the last time; if the count is not reached the runs are identical.",
+         "events of other functions at exactly the stopping time may be kept or dropped", "DESIGN.md §3 C10", "E1"),
  "C16": ("model_checking", "exhaustive enumeration of all small-alphabet matrices (real and complex, n<=3) plus enumerated structured families to 12x12, residuals in double-double",
          "Every matrix over the alphabet is factorised and solved on the real lu_decomp/lin_solve(_complex); exact integer determinants decide singular vs nonsingular; residual bound, multiplier bound, error kinds and immutability of the factors are checked on every case.",
          "backward-stability constant c = 8*rho (growth factor read off the factors, asserted <= 2^(n-1)); complex multipliers bounded by sqrt(2) because the port pivots on |re|+|im|", "DESIGN.md §3 C16", "E1"),
